@@ -126,6 +126,20 @@ CHECKS["C06"] = dict(engine="E1+E2", cat="model_checking", design="4/C06",
                      note="<= 4 sidecar columns; cell alphabets finite; dtype-only drift of the input frame is observed, not "
                           "judged")
 
+CHECKS["C07"] = dict(engine="E1", cat="model_checking", design="4/C07",
+                     technique="bounded exhaustive enumeration of tables x all row permutations, differential against "
+                               "string-level validation plus the C10 reference machine",
+                     text="Every table of the four families (1x3, 2x1, 3x1, 2x2 over 14 cell kinds: valid, invalid, "
+                          "repeated, cross-column repetition, extension, Delay, Duration, Onset/Offset/Inset, unknown "
+                          "categorical key; Delay/Duration in 7 accepted unit spellings) is validated without onsets and with "
+                          "distinct onsets in every row order: never raises; rows with clean cells report exactly the codes "
+                          "of string-level validation of the assembled row (+ banned temporal tags / cross-row temporal "
+                          "issues from the reference machine); other rows at least every per-cell error; every issue "
+                          "carries its 1-based file row, cell errors their column, unknown keys their row and column; "
+                          "permutations change only row labels plus exactly one ONSETS_UNORDERED warning.",
+                     note="string-level validation of the library is the per-row reference (differential); rows sharing a "
+                          "time point are left to C10; 'errors of a cell' = per-cell basic checks")
+
 PENDING_REASON = "check not built yet in this revision (planned in DESIGN.md section 4); not claimed until it is"
 
 
@@ -165,11 +179,11 @@ def main():
         },
         "engines": [
             {"name": "E1", "path": "mc/enumerate.py", "kind_free_text": E1,
-             "serves_properties": sorted(k for k, v in CHECKS.items() if v["engine"] == "E1")},
+             "serves_properties": sorted(k for k, v in CHECKS.items() if "E1" in v["engine"])},
             {"name": "E2", "path": "mc/explore.py", "kind_free_text": E2,
-             "serves_properties": sorted(k for k, v in CHECKS.items() if v["engine"] == "E2")},
+             "serves_properties": sorted(k for k, v in CHECKS.items() if "E2" in v["engine"])},
             {"name": "E3", "path": "mc/sched.py", "kind_free_text": E3,
-             "serves_properties": sorted(k for k, v in CHECKS.items() if v["engine"] == "E3")},
+             "serves_properties": sorted(k for k, v in CHECKS.items() if "E3" in v["engine"])},
         ],
         "checks": checks,
         "notes": "All checks run /venv/bin/python on /repo's working tree (VERIF_REPO overrides for scratch worktrees). "
